@@ -278,6 +278,12 @@ func runGapFlicker(in gapInput) {
 		res.Note("gaps/samename (F63, noted only): after app.log was renamed to app.1.log (still matching *.log) its %d bytes were delivered again as a new file — the file id contains the md5 of the path", len(extra))
 		return
 	}
+	if in.Kind == "flicker" && !in.Control {
+		// since fix b5388a7 a file ONE scan does not find keeps its offset (exact schedule: section flicker); this timed
+		// schedule keeps the file away for at least two scans: it is gone, what comes back is read as a new file
+		res.Note("gaps/flicker (noted only): the file was away for at least two scans and came back: %d bytes delivered again — forgotten after two missed scans, by design", len(extra))
+		return
+	}
 	model := driverAnswer(fmt.Sprintf("merge 0 1 6964 0 %d -", len(W)))
 	eq := model == "" || strings.Contains(model, ":0:")
 	finding := ""
